@@ -726,6 +726,23 @@ func (peer *peer) handleUpdate(e *fsmMsg) ([]*table.Path, []bgp.Family, bool) {
 					paths = append(paths, path.Clone(true))
 					continue
 				}
+				// RFC4456 8. Avoiding Routing Information Loops
+				// If the local CLUSTER_ID is found in the CLUSTER_LIST, the
+				// advertisement received SHOULD be ignored. The cluster id is the one
+				// configured for this neighbor if it is a client, the router id otherwise.
+				clusterID := routerId
+				if id := conf.RouteReflector.State.RouteReflectorClusterId; id.IsValid() {
+					clusterID = id
+				}
+				if slices.Contains(path.GetClusterList(), clusterID) {
+					peer.fsm.logger.Debug("cluster list path attribute has local cluster id, ignore",
+						slog.String("ClusterID", clusterID.String()),
+						slog.String("Data", path.String()))
+
+					path.SetRejected(true)
+					paths = append(paths, path.Clone(true))
+					continue
+				}
 			}
 			paths = append(paths, path)
 		}
